@@ -34,13 +34,16 @@ use truc::{
             convert::convert_record_definition,
             DatumDefinition, DatumId, NativeDatumDetails, RecordDefinition, RecordVariantId,
         },
-        type_resolver::{DynamicTypeInfo, TypeInfo, TypeResolver},
+        type_resolver::{DynamicTypeInfo, StaticTypeResolver, TypeInfo, TypeResolver},
     },
 };
 
 /// Resolver whose answers are scripted by the history, whatever `T` is.
 struct Scripted {
     next: RefCell<Option<DynamicTypeInfo>>,
+    /// a REAL pre-computed table holding every shape of the current history (via "table")
+    table: RefCell<Option<StaticTypeResolver>>,
+    use_table: std::cell::Cell<bool>,
 }
 
 impl Scripted {
@@ -60,9 +63,38 @@ impl TypeResolver for Scripted {
     fn type_info<T>(&self) -> TypeInfo {
         self.next.borrow().as_ref().expect("scripted").info.clone()
     }
-    fn dynamic_type_info(&self, _type_name: &str) -> DynamicTypeInfo {
+    fn dynamic_type_info(&self, type_name: &str) -> DynamicTypeInfo {
+        if self.use_table.get() {
+            return self.table.borrow().as_ref().expect("table").dynamic_type_info(type_name);
+        }
         self.next.borrow().as_ref().expect("scripted").clone()
     }
+}
+
+fn table_key(sh: &Shape) -> String {
+    format!("{}{}", sh.tname, if sh.uninit { "U" } else { "" })
+}
+
+/// The table of one history: one entry per shape it adds, keyed by a name that carries the flag.
+fn table_of(calls: &[Value]) -> StaticTypeResolver {
+    let mut m: BTreeMap<String, DynamicTypeInfo> = BTreeMap::new();
+    for c in calls {
+        if c["op"] == "add" {
+            let sh = shape_of(c);
+            m.insert(
+                table_key(&sh),
+                DynamicTypeInfo {
+                    info: TypeInfo {
+                        name: sh.tname.clone(),
+                        size: sh.size,
+                        align: sh.align,
+                    },
+                    allow_uninit: sh.uninit,
+                },
+            );
+        }
+    }
+    StaticTypeResolver::from(m)
 }
 
 static LAYOUT_ONLY: std::sync::atomic::AtomicBool = std::sync::atomic::AtomicBool::new(false);
@@ -137,13 +169,14 @@ macro_rules! with_t_any {
     };
 }
 
-const VIAS: [&str; 6] = [
+const VIAS: [&str; 7] = [
     "typed",
     "uninit",
     "override",
     "override_partial",
     "dynamic",
     "copy",
+    "table",
 ];
 
 #[derive(Clone)]
@@ -238,6 +271,17 @@ impl<'a> Target for NativeT<'a> {
             "dynamic" => {
                 self.r.set(&sh.tname, sh.size, sh.align, sh.uninit);
                 b.add_dynamic_datum(name, "some :: dynamic < name >")
+            }
+            "table" => {
+                // a real StaticTypeResolver, looked up by a name held in short-lived heap storage
+                // (the way names read from a configuration file are)
+                self.r.set("WRONG", sh.size + 5, sh.align * 2, !sh.uninit);
+                let owned: String = table_key(sh).chars().collect();
+                self.r.use_table.set(true);
+                let res = catch_unwind(AssertUnwindSafe(|| b.add_dynamic_datum(name, owned.as_str())));
+                self.r.use_table.set(false);
+                drop(owned);
+                res.unwrap_or_else(|_| Err("panic".to_owned()))
             }
             "copy" => {
                 let d = DatumDefinition::new(
@@ -431,7 +475,7 @@ fn run_calls(t: &mut dyn Target, calls: &[Value], run: u64, out: &mut Out) {
                 let via0 = c["via"].as_str().unwrap_or("typed");
                 // run 3 decorrelates the entry point and the Rust type from the script
                 let (via, tidx) = if run == 3 {
-                    let mut v = VIAS[(ci * 7 + 3) % VIAS.len()];
+                    let mut v = VIAS[(ci * 5 + 3) % VIAS.len()];
                     // entry points that cannot express the scripted flag are skipped
                     if sh.uninit && v == "typed" {
                         v = "dynamic";
@@ -722,6 +766,8 @@ fn run_history(h: &Value, run: u64, with_converts: bool, out: &mut Out) {
                  "a128": std::mem::align_of::<u128>(), "big_endian": cfg!(target_endian = "big")}}));
     let resolver = Scripted {
         next: RefCell::new(None),
+        table: RefCell::new(Some(table_of(calls))),
+        use_table: std::cell::Cell::new(false),
     };
     if kind == "native" {
         let mut t = NativeT::new(&resolver);
